@@ -28,6 +28,10 @@ PROP = dict(
         "are closed. Spec: imported code is evaluated in a scope holding only `//`, so an open script fails whatever the importers "
         "bind, and binders of importers never change an imported value. This evaluation-scope part rests on the correspondence run "
         "(the Lean graph model abstracts evaluation: `compile` yields the unfolding; the generator's value function is applied to it)",
+        "sequences (quick: 300): 2-3 evaluations over one file system sharing ONE context - the root cache, and in half of the "
+        "cases also the import cache - with scripts inside and outside any module (the base go.mod dropped in half of the layouts, "
+        "same-named files at the file-system root), module-rooted imports that fail for lack of a module repeated in the same "
+        "context; every evaluation must give the outcome and (modulo scripts already in a shared import cache) the reads of a fresh context",
         "nested modules (quick: 200 layouts x 2): go.mod at the base and/or at 1-2 nested directories, the same relative names "
         "(data/lib/util) with different contents in all 5 directories, module-rooted imports issued at every depth including "
         "directly in a nested root, 2-5 imports per main script evaluated in BOTH orders so that root-cache entries of an earlier "
